@@ -142,3 +142,42 @@ def _(v):
         except ValueError:
             ok = True
         v.prove("rejects_%s" % (junk or "empty"), ok)
+
+
+@harness("C14", "reading_the_mass_changes_nothing", functions=["chempy.util.periodic:mass_from_composition", "chempy.chemistry:Substance.mass", "chempy.chemistry:Substance.charge"], kind="shape-bounded", samples=30)
+def _(v):
+    """frame condition: mass/charge are pure reads - the composition (incl. the charge entry) is untouched and a second read agrees"""
+    from chempy.chemistry import Substance
+    from chempy.util import periodic
+    q, nfe, nc, nn = v.int("charge", lo=-6, hi=6), v.int("n_Fe", lo=1, hi=4), v.int("n_C", lo=0, hi=9), v.int("n_N", lo=0, hi=9)
+    comp = {26: nfe, 6: nc, 7: nn, 0: q}
+    s = Substance("X", composition=comp)
+    ram = periodic.relative_atomic_masses
+    want = nfe * ram[25] + nc * ram[5] + nn * ram[6] - q * ELECTRON
+    m1 = v.getattr(s, "mass")
+    v.prove("composition_untouched", set(s.composition.keys()) == {26, 6, 7, 0} and SP.conj([s.composition[26] == nfe, s.composition[6] == nc, s.composition[7] == nn, s.composition[0] == q]))
+    m2 = v.getattr(s, "mass")
+    v.prove("first_read", v.eq(m1, want))
+    v.prove("second_read_agrees", v.eq(m2, want))
+    v.prove("charge_still_there", v.getattr(s, "charge") == q)
+    direct = v.call(periodic.mass_from_composition, comp)
+    v.prove("caller_dict_untouched", set(comp.keys()) == {26, 6, 7, 0} and SP.conj([comp[0] == q]))
+    v.prove("direct_call", v.eq(direct, want))
+
+
+@harness("C14", "mass_fractions.lookup_by_key", functions=["chempy.chemistry:mass_fractions"], kind="shape-bounded", div_mode="fork", samples=30)
+def _(v):
+    """a caller-supplied substances mapping may hold more entries and another order than the stoichiometry"""
+    from chempy.chemistry import Substance, mass_fractions
+    from collections import OrderedDict
+    names = ["H2", "O2", "N2", "Ar"]
+    ms = {n: v.real("m_" + n, lo=0.5, hi=100) for n in names}
+    subst = OrderedDict((n, make_obj(Substance, name=n, data={"mass": ms[n]}, composition=None)) for n in ["Ar", "O2", "N2", "H2"])
+    c1, c2 = v.real("v_H2", lo=0.1, hi=9), v.real("v_O2", lo=0.1, hi=9)
+    r = v.call(mass_fractions, OrderedDict([("H2", c1), ("O2", c2)]), subst)
+    tot = ms["H2"] * c1 + ms["O2"] * c2
+    v.prove("keys", set(r.keys()) == {"H2", "O2"})
+    v.prove("each_species_uses_its_own_mass", SP.conj([v.eq(r["H2"], ms["H2"] * c1 / tot), v.eq(r["O2"], ms["O2"] * c2 / tot)]))
+    r2 = v.call(mass_fractions, {"O2", "H2"}, subst) if not v.symbolic else None
+    if r2 is not None:
+        v.prove("set_means_unit_coefficients", v.eq(r2["H2"], float(ms["H2"]) / (float(ms["H2"]) + float(ms["O2"]))))
